@@ -114,8 +114,31 @@ fn faults(seed: &[u8], double: bool) -> Vec<Vec<u8>> {
         out
     }
     let mut out = single(seed);
+    // every window of 1, 2, 4 and 8 octets overwritten with the boundary values of an integer of that
+    // width, big and little endian (length fields, the trailing bit length of a BIT STRING, varint runs)
+    for w in [1usize, 2, 4, 8] {
+        if seed.len() < w {
+            continue;
+        }
+        let max: u64 = if w == 8 { u64::MAX } else { (1u64 << (8 * w)) - 1 };
+        let mut pats: Vec<u64> = vec![0, 1, max, max - 1, max - 6, max - 7, max - 8, max >> 1, (max >> 1) + 1, (max >> 1) - 6];
+        pats.dedup();
+        for i in 0..=seed.len() - w {
+            for p in &pats {
+                for le in [false, true] {
+                    let mut b = seed.to_vec();
+                    let bytes = p.to_be_bytes();
+                    let src = &bytes[8 - w..];
+                    for k in 0..w {
+                        b[i + k] = if le { src[w - 1 - k] } else { src[k] };
+                    }
+                    out.push(b);
+                }
+            }
+        }
+    }
     if double && seed.len() <= 8 {
-        let firsts = out.clone();
+        let firsts = single(seed);
         for f in firsts {
             out.extend(single(&f));
         }
@@ -207,7 +230,7 @@ pub fn run(args: &Args) -> ! {
         cov.insert(k.clone(), json!(n));
     }
     cov.insert("distinct_nontrivial".into(), json!(agg.counters.get("nontrivial").copied().unwrap_or(0)));
-    cov.insert("rule".into(), json!("protobuf reader: for every type of the protobuf zoo: every byte string of <= 1 octet, every string of 2 (thorough: 3) octets over a 20-octet alphabet of tags, wire types, lengths and continuation octets, and every single (thorough: double on seeds <= 8 octets) fault - bit flip, truncation, octet deletion, insertion of 6 octet values at every position - of up to 2 (6) valid encodings: the read returns Ok or Err, does not panic, the worker process does not die or hang, and no allocation exceeds 1 MiB + 256 x input length (single request or peak growth; an Err of the subject carries a resolved backtrace)"));
+    cov.insert("rule".into(), json!("protobuf reader: for every type of the protobuf zoo: every byte string of <= 1 octet, every string of 2 (thorough: 3) octets over a 20-octet alphabet of tags, wire types, lengths and continuation octets, and every single (thorough: double on seeds <= 8 octets) fault - bit flip, truncation, octet deletion, insertion of 6 octet values at every position, every window of 1/2/4/8 octets overwritten with 10 integer boundary values in both byte orders - of up to 2 (6) valid encodings: the read returns Ok or Err, does not panic, the worker process does not die or hang, and no allocation exceeds 1 MiB + 256 x input length (single request or peak growth; an Err of the subject carries a resolved backtrace)"));
     report.finish(cov, vec![])
 }
 
